@@ -17,6 +17,6 @@ Judge(rec) ==
           <<cls = "acyclic" => first.ok, "an acyclic set of sources was refused">>,
           <<AllowedOutcomeE(srcs, E, cls, first), "the order is not a permutation that respects every build-dependency">> >>)
 Init == l \in 1..Len(Trace) /\ verdict = Pending
-Next == verdict.class = "pending" /\ verdict' = Judge(Trace[l]) /\ UNCHANGED l
+Next == verdict.class = "pending" /\ verdict' = JudgeOrCrash(Trace[l], Judge) /\ UNCHANGED l
 Spec == Init /\ [][Next]_vars
 =============================================================================
